@@ -486,6 +486,7 @@ def generate(repo, contracts, twin=False, only=None, force_degrade=None):
             items = rules.prepare_custom_packet(items, ctx)
         items = rules.expand_macros(items, ctx)
         items = rules.expand_derive_default(items, ctx)
+        items = rules.expand_derive_clone(items, ctx, modpath)
         items = rules.flatten_fci(items, ctx, modpath)
         items = rules.split_iterators(items, ctx)
         assign_keys(items, modpath)
